@@ -21,7 +21,7 @@ fn ip(a: std::net::Ipv4Addr) -> u64 {
     u32::from(a) as u64
 }
 
-fn v5_named(p: &v5::V5) -> (Named, Vec<Named>, Vec<(u8, String)>) {
+pub fn v5_named(p: &v5::V5) -> (Named, Vec<Named>, Vec<(u8, String)>) {
     let h = &p.header;
     let hdr: Named = vec![
         ("version", h.version as u64),
@@ -64,7 +64,7 @@ fn v5_named(p: &v5::V5) -> (Named, Vec<Named>, Vec<(u8, String)>) {
     (hdr, recs, protos)
 }
 
-fn v7_named(p: &v7::V7) -> (Named, Vec<Named>, Vec<(u8, String)>) {
+pub fn v7_named(p: &v7::V7) -> (Named, Vec<Named>, Vec<(u8, String)>) {
     let h = &p.header;
     let hdr: Named = vec![
         ("version", h.version as u64),
